@@ -154,6 +154,14 @@ class WhenProp:
                             if form >= 2:
                                 val = (val // NS_US) * NS_US
                         res = f'ok {ns_of_instant(get_instant(arg))}'
+                        if kind == 'after':
+                            # the same argument as the optional `start` of an interval trigger (public API): the grid starts
+                            # at the instant the argument denotes - also when the argument is a zero duration
+                            from eascheduler.builder.triggers import TriggerBuilder
+                            p = TriggerBuilder.interval(arg, 3600)._producer
+                            r2 = ns_of_instant(p.get_next(instant_of_ns(now + val - 1)))
+                            if r2 != now + val:
+                                res = f'ok {r2} (as start of TriggerBuilder.interval; get_instant alone gave {res})'
                 except Exception as e:  # noqa: BLE001
                     res = f'err {type(e).__name__}'
             finally:
